@@ -288,18 +288,26 @@ From PyGql Require Import Run.C18run.
 Lemma ostr_eqb_eq : reflects (oeqb str_eqb).
 Proof. apply oeqb_eq. intros a b. apply str_eqb_eq. Qed.
 
+Lemma visit_eqb_eq : reflects visit_eqb.
+Proof.
+  intros [t r] [t' r']. unfold visit_eqb. simpl. rewrite andb_true_iff, trace_eqb_eq, result_eqb_eq. fin.
+Qed.
+
+Lemma hist_eqb_eq : reflects (leqb visit_eqb).
+Proof. apply leqb_eq, visit_eqb_eq. Qed.
+
 (* OCrash / OIllFormed are matched by agree_C18 itself, never by obs_eqb *)
 Theorem obs_eqb_sound a b : obs_eqb a b = true -> a = b.
 Proof.
   destruct a, b; cbn [obs_eqb]; try discriminate;
-    rewrite ?andb_true_iff, ?trace_eqb_eq, ?result_eqb_eq, ?bool_eqb_eq, ?ostr_eqb_eq;
+    rewrite ?andb_true_iff, ?trace_eqb_eq, ?result_eqb_eq, ?bool_eqb_eq, ?ostr_eqb_eq, ?hist_eqb_eq;
     intros; repeat match goal with H : _ /\ _ |- _ => destruct H end; subst; reflexivity.
 Qed.
 
 Theorem obs_eqb_refl a : a <> OCrash -> a <> OIllFormed -> obs_eqb a a = true.
 Proof.
   destruct a; cbn [obs_eqb]; try congruence; intros _ _;
-    rewrite ?andb_true_iff, ?trace_eqb_eq, ?result_eqb_eq, ?bool_eqb_eq, ?ostr_eqb_eq; repeat split; reflexivity.
+    rewrite ?andb_true_iff, ?trace_eqb_eq, ?result_eqb_eq, ?bool_eqb_eq, ?ostr_eqb_eq, ?hist_eqb_eq; repeat split; reflexivity.
 Qed.
 
 (* a case the oracle accepts is one where the recorded observation IS the
